@@ -5,7 +5,7 @@ from func_adl.ast.function_simplifier import FuncADLIndexError, simplify_chained
 
 from vlib.sh.common import HI, LO, TWIN, L, attr, call, const, dump, lam, mcall, name, nt, pick, sub, tick
 
-NCONT, NPOS, NSEL = 5, 4, 8
+NCONT, NPOS, NSEL = 5, 4, 11
 
 
 PLACEHOLDER = {int: 7, bool: True, str: "s", float: 1.5, bytes: b"b"}
@@ -61,7 +61,13 @@ def selector(sk, k, b, s):
         return ast.UnaryOp(ast.USub(), const(k))
     if sk == 6:
         return ast.Slice(const(0), const(k), None)
-    return const(1.0)
+    if sk == 7:
+        return const(1.0)
+    if sk == 8:
+        return ast.Slice(const(k), None, None)
+    if sk == 9:
+        return ast.Slice(None, None, const(k))
+    return ast.Slice(const(1), const(3), const(k))
 
 
 def build(ck, pos, n, sel_fn, ks):
@@ -79,15 +85,18 @@ def build(ck, pos, n, sel_fn, ks):
 def c18a(code: int, sk: int, n: int, k: int, b: bool, s: str, ks: str) -> str:
     """
     pre: LO <= code < HI and 0 <= code < 20
-    pre: 0 <= sk < 8 and 0 <= n <= 3 and -5 <= k <= 5 and len(s) <= 2 and len(ks) <= 2
+    pre: 0 <= sk < 11 and 0 <= n <= 3 and -5 <= k <= 5 and len(s) <= 2 and len(ks) <= 2
     post: (_ == '') != TWIN
     """
     code = pick(code, max(LO, 0), min(HI, NCONT * NPOS))
     ck, pos = code // NPOS, code % NPOS
     sk = pick(sk, 0, NSEL)
     n = pick(n, 0, 4) if ck < 2 else 2
-    if sk in (5, 6) and k < 0:
-        return ""
+    if sk in (5, 6, 8, 9, 10):
+        if k < 0 or (sk >= 9 and k == 0):
+            return ""
+        if sk != 5:
+            k = pick(k, 0, 6)      # a slice bound can become a list length inside the code under test: case split instead of a symbolic length
     q = build(ck, pos, n, lambda: selector(sk, k, b, s), ks)
     tick()
     try:
